@@ -64,42 +64,59 @@ KEYS = {
 
 def body(run):
     q = run.quick()
-    exe = [None]
-    run.parallel(
-        lambda: run.tlc("Monitor", "Monitor", "Monitor_mc.cfg" if q else "Monitor_mc_thorough.cfg",
-                        label="contract: pipeline model satisfies InvNotifyNode / ConvergesToLatest / ...", timeout=3000, workers=4),
-        lambda: run.tlc("Monitor", "Monitor", "Monitor_dev_reuse.cfg", expect="violation", count=False, workers=4,
-                        label="deviation demo: reused client handle"),
-        lambda: run.tlc("Monitor", "Monitor", "Monitor_dev_keepold.cfg", expect="violation", count=False, workers=4,
-                        label="deviation demo: publish queue keeps the older value"),
-        lambda: run.tlc("Monitor", "Monitor", "Monitor_dev_split.cfg", expect="violation", count=False, workers=4,
-                        label="deviation demo: value read and notification sent outside the lock"),
-        lambda: exe.__setitem__(0, run.go_build("monitor")),
-    )
+    def case(n, w, ch, iv, mode, pause, **kw):
+        d = {"nodes": n, "writes": w, "churn": ch, "interval": iv, "mode": mode, "pause": pause,
+             "app": 0, "ts": 0, "map": 0, "late": 0}
+        d.update(kw)
+        return d
+
+    quick_plan = [
+        case(3, 200, 0, 20, "cb", 0), case(3, 200, 25, 20, "cb", 300, map=1), case(2, 100, 0, 50, "chan", 500, late=1),
+        case(3, 150, 40, 10, "chan", 200),
+        case(2, 200, 400, 1, "cb", 0),      # fast churn: many initial notifications race with a stream of writes
+        # application mode: callback-backed nodes / map keys changed inside the server and announced with
+        # Server.ChangeNotification / MapNamespace.SetValue from concurrent goroutines; the callback pauses after sampling
+        case(3, 300, 0, 10, "cb", 100, app=1), case(2, 300, 10, 10, "chan", 100, app=1, map=1, late=1),
+        # explicit, non-monotonic source timestamps, several writes per publishing interval
+        case(3, 300, 0, 50, "cb", 200, ts=1, map=1, late=1), case(2, 200, 10, 20, "chan", 100, ts=1),
+    ]
+    plan = quick_plan if q else quick_plan + [
+        case(16, 2000, 0, 20, "cb", 0), case(16, 2000, 40, 20, "cb", 100, map=1), case(8, 5000, 0, 10, "chan", 0, ts=1),
+        case(8, 3000, 60, 10, "cb", 50, late=1), case(4, 1000, 30, 100, "cb", 1000, ts=1, map=1, late=1), case(1, 5000, 0, 5, "cb", 0),
+        case(6, 1000, 20, 1, "chan", 100), case(16, 500, 100, 50, "chan", 200, map=1),
+        case(1, 200, 1500, 1, "chan", 0), case(3, 200, 1000, 1, "cb", 20),
+        case(8, 3000, 0, 20, "cb", 50, app=1, map=1), case(4, 2000, 50, 5, "chan", 0, app=1, late=1), case(1, 5000, 0, 10, "cb", 0, app=1),
+    ]
     cases = []
-    if q:
-        plan = [(3, 200, 0, 20, "cb", 0), (3, 200, 25, 20, "cb", 300), (2, 100, 0, 50, "chan", 500), (3, 150, 40, 10, "chan", 200),
-                (2, 200, 400, 1, "cb", 0),      # fast churn: many initial notifications race with a stream of writes
-                # application mode: callback-backed nodes changed inside the server and announced with
-                # Server.ChangeNotification from concurrent goroutines; the callback pauses after sampling
-                (3, 300, 0, 10, "cb", 100, 1), (2, 300, 10, 10, "chan", 100, 1)]
-    else:
-        plan = [(3, 200, 0, 20, "cb", 0), (3, 200, 6, 20, "cb", 300), (2, 100, 0, 50, "chan", 500), (3, 150, 8, 10, "chan", 200),
-                (16, 2000, 0, 20, "cb", 0), (16, 2000, 40, 20, "cb", 100), (8, 5000, 0, 10, "chan", 0), (8, 3000, 60, 10, "cb", 50),
-                (4, 1000, 30, 100, "cb", 1000), (1, 5000, 0, 5, "cb", 0), (6, 1000, 20, 1, "chan", 100), (16, 500, 100, 50, "chan", 200),
-                (2, 200, 400, 1, "cb", 0), (1, 200, 1500, 1, "chan", 0), (3, 200, 1000, 1, "cb", 20),
-                (3, 300, 0, 10, "cb", 100, 1), (2, 300, 10, 10, "chan", 100, 1), (8, 3000, 0, 20, "cb", 50, 1),
-                (4, 2000, 50, 5, "chan", 0, 1), (1, 5000, 0, 10, "cb", 0, 1)]
-    for i, t in enumerate(plan):
-        n, w, ch, iv, mode, pause = t[:6]
-        cases.append({"id": i + 1, "nodes": n, "writes": w, "churn": ch, "interval": iv, "mode": mode, "pause": pause,
-                      "app": t[6] if len(t) > 6 else 0, "salt": i + 1})
-    results = run.go_run(exe[0], [], cases=cases, timeout=2400)
+    for i, d in enumerate(plan):
+        cases.append(dict(d, id=i + 1, salt=i + 1))
+    exe = run.go_build("monitor")
+
+    def models():
+        run.parallel(
+            lambda: run.tlc("Monitor", "Monitor", "Monitor_mc.cfg" if q else "Monitor_mc_thorough.cfg",
+                            label="contract: pipeline model satisfies InvNotifyNode / ConvergesToLatest / ...", timeout=3000, workers=4),
+            lambda: run.tlc("Monitor", "Monitor", "Monitor_dev_reuse.cfg", expect="violation", count=False, workers=2,
+                            label="deviation demo: reused client handle"),
+            lambda: run.tlc("Monitor", "Monitor", "Monitor_dev_keepold.cfg", expect="violation", count=False, workers=2,
+                            label="deviation demo: publish queue keeps the older value"),
+            lambda: run.tlc("Monitor", "Monitor", "Monitor_dev_split.cfg", expect="violation", count=False, workers=2,
+                            label="deviation demo: value read and notification sent outside the lock"),
+        )
+
+    _, results = run.parallel(models, lambda: run.go_run(exe, [], cases=cases, timeout=2400))
     if len(results) != len(cases):
         raise vf.Inconclusive("harness returned %d results for %d cases" % (len(results), len(cases)))
-    oks = [r for r in results if r.get("status") == "ok"]
-    traces = [r["obs"]["events"] for r in oks]
-    for r in oks:
+    oks0 = [r for r in results if r.get("status") == "ok"]
+    # one trace per subscription of a run: the writes, quiesce and final reads are common to all,
+    # add / remove / notify events belong to one subscription (field s)
+    oks, traces = [], []
+    for r in oks0:
+        evs = r["obs"]["events"]
+        for si in range(1, int(r["obs"]["stats"].get("subscriptions", 1)) + 1):
+            traces.append([e for e in evs if e.get("s", 0) in (0, si)])
+            oks.append(dict(r, case=dict(r["case"], subscription=si)))
+    for r in oks0:
         r["obs"] = r["obs"]["stats"]
     run.absorb(results)
     if not traces:
@@ -138,12 +155,14 @@ def body(run):
             json.dumps(oks[i]["case"]), json.dumps(ev), why, p), case={"shape": oks[i]["case"], "event": ev, "why": why})
     run.cov["traces_validated_against_impl"] += len(remaining)
     run.cov["events_validated"] = sum(len(traces[i]) for i in remaining)
+    run.cov["traces_per_subscription"] = len(traces)
     run.cov["rule"] = ("one evaluation per recorded run (nodes x writes per node x churn rounds x publishing interval x callback/"
                        "channel subscription); non-trivial when more notifications than the initial ones were delivered")
     run.assumptions += [
         "values are tagged node*1e6+counter, one writer per node; wcall/add/remove are stamped before the call, wret after, notify inside the callback, by one atomic counter",
         "drain after the last write: no notification for max(10 publishing intervals, 500 ms) (at most 15 s), then every node is read",
         "'handle not found' messages (DataChangeMessage.Error set, no node id) are counted but are not data changes",
+        "map=1: the keys of a MapNamespace are monitored and written as well (application mode: MapNamespace.SetValue); ts=1: client writes carry explicit source timestamps drawn at random within +-1 h (not monotonic); late=1: after the last write a second subscription of the same NodeMonitor adds every node in one request and must still converge (one trace per subscription)",
         "application mode: the value of a callback-backed node is changed by one goroutine per node and announced with Server.ChangeNotification from a goroutine per change; the value callback pauses up to 0.4 ms after sampling on every third call (scheduler gate through the public ValueFunc)",
         "the application consumes notifications immediately (deep channel / cheap callback): slow-consumer drops are outside the property",
     ]
